@@ -31,6 +31,7 @@ EXC_NAMES = {
     "NotImplementedError": "ENotImplemented", "ImportError": "EImportError",
     "etree.XMLSyntaxError": "EXMLSyntax", "etree.ParseError": "EParseError",
     "jsonschema.exceptions.ValidationError": "EValidation", "Exception": "EException",
+    "RecursionError": "ERecursion", "zipfile.BadZipFile": "EBadZip", "zlib.error": "EZlib",
 }
 
 
@@ -249,7 +250,34 @@ def translate_checker(repo):
                 annotated.append((cname, fn.name))
     if not methods:
         raise TranslationError("no checker methods recognised")
+    # SpecificAssetIds are located with `expected == element` (_find_specific_asset_id) before
+    # check_specific_asset_id runs, so every attribute SpecificAssetId.__eq__ looks at is compared
+    uses_find = any(isinstance(n, ast.Attribute) and n.attr == "_find_specific_asset_id" for n in ast.walk(cls))
+    find = next((n for n in cls.body if isinstance(n, ast.FunctionDef) and n.name == "_find_specific_asset_id"), None)
+    by_eq = find is not None and any(isinstance(n, ast.Compare) and isinstance(n.ops[0], ast.Eq) for n in ast.walk(find))
+    if uses_find and by_eq:
+        eq_attrs = eq_attributes(repo, "SpecificAssetId")
+        methods = [(m, sorted(set(at) | set(eq_attrs)) if m == "check_specific_asset_id" else at, de)
+                   for m, at, de in methods]
     return methods, annotated
+
+
+def eq_attributes(repo, cname):
+    """attributes compared by <cname>.__eq__ in model/base.py: a conjunction of self.a == other.a"""
+    tree = ast.parse(open(os.path.join(repo, "sdk", "basyx", "aas", "model", "base.py")).read())
+    cls = next((n for n in tree.body if isinstance(n, ast.ClassDef) and n.name == cname), None)
+    eq = next((n for n in (cls.body if cls else []) if isinstance(n, ast.FunctionDef) and n.name == "__eq__"), None)
+    if eq is None or not isinstance(eq.body[-1], ast.Return) or not isinstance(eq.body[-1].value, ast.BoolOp) \
+            or not isinstance(eq.body[-1].value.op, ast.And):
+        raise TranslationError(f"{cname}.__eq__ is not a conjunction")
+    attrs = []
+    for c in eq.body[-1].value.values:
+        if not (isinstance(c, ast.Compare) and len(c.ops) == 1 and isinstance(c.ops[0], ast.Eq)
+                and isinstance(c.left, ast.Attribute) and isinstance(c.left.value, ast.Name) and c.left.value.id == "self"
+                and isinstance(c.comparators[0], ast.Attribute) and c.comparators[0].attr == c.left.attr):
+            raise TranslationError(f"{cname}.__eq__: unsupported conjunct {ast.unparse(c)}")
+        attrs.append(c.left.attr)
+    return attrs
 
 
 ABSTRACT = {"SubmodelElement", "HasExtension", "Referable", "Identifiable", "HasSemantics", "HasKind", "Qualifiable",
